@@ -137,6 +137,7 @@ func main() {
 	pin := flag.String("pin", "", "concrete run: JSON file name->[values] pinning every nondet (translator validation)")
 	clockFiles := flag.String("clockfiles", "", "comma separated source files (relative to -mod) in which time.Now()/time.Since( are redirected to the harness clock zzverif.Now()/zzverif.Since( (mechanical copy, used by the symbolic AND the native build)")
 	hookFiles := flag.String("hookfiles", "", "comma separated file:ReceiverType (relative to -mod): every method of the receiver gets a prologue that calls zzverif.Hooks[\"Type.Method\"] when the harness registered one (mechanical copy, used by both builds)")
+	crossBin := flag.String("crosssolver", "z3-new", "second solver for -cross: z3-new, z3 or cvc5")
 	witnessN := flag.Int("witness", 0, "replay up to N passing paths natively (translator validation)")
 	exact := flag.Bool("exactfmt", false, "render %d of symbolic integers exactly (digit variables) instead of opaquely")
 	summ := flag.String("summary", "", "comma separated summaries to enable (vaaid = (*VAAID).Bytes as an injective encoding of its fields)")
@@ -153,6 +154,7 @@ func main() {
 	if *exact {
 		exactFmt = true
 	}
+	crossSolver = *crossBin
 	parseRestrict(*restrictS)
 
 	t0 := time.Now()
